@@ -100,6 +100,7 @@ type Driver struct {
 	ending   bool
 	gids     map[uint64]int
 	gidInst  map[uint64]int // goroutine -> instance it was last seen working for
+	rJitInst map[int]*Rng
 	parked   map[*yieldReq]bool
 	inflight map[*Op]bool
 	apiBusy  []int // per instance: API calls in progress
@@ -330,6 +331,12 @@ func (d *Driver) Run() {
 
 // drainInbox turns new requests into scheduled events. Caller holds d.mu.
 func (d *Driver) drainInbox() {
+	// Canonical order, not arrival order: which of several goroutines woken at one instant
+	// reaches its simulator point first can depend on the Go scheduler (sysmon may ask a goroutine
+	// to yield when the OS descheduled its thread for >10 ms), and must not leak into the run.
+	if len(d.inbox) > 1 {
+		sort.SliceStable(d.inbox, func(i, j int) bool { return reqKey(d.inbox[i]) < reqKey(d.inbox[j]) })
+	}
 	for len(d.inbox) > 0 {
 		r := d.inbox[0]
 		d.inbox = d.inbox[1:]
@@ -353,6 +360,17 @@ func (d *Driver) drainInbox() {
 			})
 		}
 	}
+}
+
+func reqKey(r *request) string {
+	switch r.kind {
+	case "op":
+		o := r.op
+		return fmt.Sprintf("a/%03d/%s/%s/%020d/%s/%x", o.Inst+1, o.Kind, o.Key, o.Rev, o.Caller, o.Val)
+	case "yield":
+		return fmt.Sprintf("b/%03d/%s", r.y.inst+1, r.y.site)
+	}
+	return "z"
 }
 
 // ---------- store operations ----------
